@@ -29,6 +29,7 @@ import time
 import vlib
 
 LEVEL = "model_checking"
+CLAIMED = True   # set by the lead after review; only claimed checks enter MANIFEST.json
 
 MANIFEST = dict(
     category="model_checking",
@@ -108,6 +109,11 @@ class Session:
                 self.dr.quit()
         finally:
             vlib.rmtree(self.dir)
+
+
+def killed_from_outside(e):
+    """SIGTERM / SIGKILL come from outside the process (OOM killer, another job's cleanup); a Go panic exits with 2."""
+    return e.rc in (-15, -9)
 
 
 # --------------------------------------------------------------------------- concretisation
@@ -299,14 +305,16 @@ class Concretiser:
 
     def ts_for(self, s, tsc):
         last = self.last_ts[s]
-        if tsc == "inc":
+        if tsc == "inc1":
+            t = last + 1
+        elif tsc == "inc":
             t = last + self.rnd.choice([1, 1, 7, 255, 256, 65535, 65536, 1000])
         elif tsc == "same":
             t = last
         elif tsc == "back":
             t = last - self.rnd.choice([1, 5000, 70000])
         elif tsc == "far":
-            t = last + 2 ** 32 + self.rnd.randrange(0, 1000)
+            t = last + self.rnd.choice([2 ** 32 - 1, 2 ** 32, 2 ** 32 + self.rnd.randrange(1, 1000)])
         else:
             return None
         self.last_ts[s] = t
@@ -321,7 +329,9 @@ class Concretiser:
             for j in range(self.mult):
                 cid = "e%d_%d" % (aid, j)
                 ev = {"id": cid}
-                ts = self.ts_for(s, tsc)
+                # the class shapes the first concrete event; copies made by the multiplication advance by 1 ms
+                # (except same / none), so that 1000 x "far" does not run centuries ahead
+                ts = self.ts_for(s, tsc if (j == 0 or tsc in ("same", "none")) else "inc1")
                 if ts is not None:
                     ev["timestamp"] = ts
                 for c in ("c1", "c2", "c3", "c4"):
@@ -411,6 +421,7 @@ class Oracle:
         self.by_aid = {}     # abstract id -> [cid]
 
     def note(self, aid, cid, stream, exp, ts, window):
+        self.max_ts = max(getattr(self, "max_ts", 0), ts if ts is not None else window[1])
         self.sent[cid] = (stream, exp, ts if ts is not None else window)
         self.by_aid.setdefault(aid, []).append(cid)
 
@@ -423,8 +434,10 @@ class Oracle:
     def check(self, stream, obs, resp, stage, light=False):
         """-> list of (key, detail).  light: only ids + timestamp + a sample of full records (huge scenarios)."""
         bad = []
-        if "qerr" in resp or resp.get("hang"):
-            return [("query-error", "%s: match-all on %s failed: %s" % (stage, stream, resp.get("qerr", "hang")))]
+        if resp.get("hang"):
+            raise vlib.Infra("match-all query did not finish within the driver's timeout (machine load?)")
+        if "qerr" in resp:
+            return [("query-error", "%s: match-all on %s failed: %s" % (stage, stream, resp.get("qerr")))]
         recs = ((resp.get("hits") or {}).get("records")) or []
         must = self.expand(obs["must"])
         may = self.expand(obs["may"])
@@ -513,15 +526,16 @@ def replay_history(binary, case):
             stats["steps"] += 1
             for s, obs in sorted(st["obs"].items()):
                 size = max(1000, len(orc.sent) + 100)
-                resp = ses.query(s, "*", size=size, include_nulls=True)
+                end = max(int(time.time() * 1000) + 86_400_000, getattr(orc, "max_ts", 0) + 1000)   # covering range
+                resp = ses.query(s, "*", size=size, include_nulls=True, end=end)
                 stats["queries"] += 1
                 for key, detail in orc.check(s, obs, resp, "step %d (%s)" % (n + 1, a), light=light):
                     fails.append((key, detail))
             if fails:
                 break
     except vlib.DriverDead as e:
-        if e.kind == "hang":
-            raise vlib.Infra("engine did not answer in time (machine load?): %s" % e)
+        if e.kind == "hang" or killed_from_outside(e):
+            raise vlib.Infra("engine did not answer in time / was killed by a signal from outside (machine load?): %s" % e)
         fails.append(("engine-died", str(e)))
     finally:
         if ses is not None:
@@ -548,7 +562,7 @@ def probe_nonfinite(binary):
             return [("field:value:numeric-string-rewritten-as-number", "sent the string \"inf\", got %r" % (got.get("p1"),))]
         return []
     except vlib.DriverDead as e:
-        if e.kind == "hang":
+        if e.kind == "hang" or killed_from_outside(e):
             raise vlib.Infra(str(e))
         return [("engine-died", str(e))]
     finally:
@@ -619,14 +633,14 @@ def run(chk):
         add(interesting, 10, "card", "rt-card")
         add(cap, 2, "cap", "cap")
     else:
-        add(rt, 2500, "plain", "rt")
-        add(rt2, 1200, "plain", "rt2")
-        add(sim, 1200, "plain", "sim")
-        add(interesting, 300, "constlen", "rt-constlen")
-        add(interesting, 150, "big", "rt-big")
-        add(interesting, 150, "card", "rt-card")
-        add(sim, 60, "card", "sim-card")
-        add(cap, 20, "cap", "cap")
+        add(rt, 1500, "plain", "rt")
+        add(rt2, 700, "plain", "rt2")
+        add(sim, 700, "plain", "sim")
+        add(interesting, 200, "constlen", "rt-constlen")
+        add(interesting, 100, "big", "rt-big")
+        add(interesting, 100, "card", "rt-card")
+        add(sim, 30, "card", "sim-card")
+        add(cap, 10, "cap", "cap")
     # the statement's un-relaxed case: numeric-looking strings next to numbers (fixed classes)
     def same_block(b):
         cl = {}
